@@ -386,6 +386,8 @@ def run_scenarios(scens, patches_cm, timeout_ms=10000, max_paths=4000, wall_s=12
                     ax0 = scen.axioms(v) if scen.axioms else []
                     for label, claim in res:
                         out['obligations'] += 1
+                        if type(claim).__name__ == 'bool_':
+                            claim = bool(claim)
                         if claim is True:
                             out['discharged'] += 1
                             stats.syntactic += 1
